@@ -14,6 +14,7 @@ from simkit.util import Tape, digest, setup_cobald_path
 setup_cobald_path()
 
 import trio  # noqa: E402
+import trio.abc  # noqa: E402
 import trio.testing  # noqa: E402
 import trio._core._run as _trio_run  # noqa: E402
 
@@ -52,6 +53,23 @@ _trio_run._ALLOW_DETERMINISTIC_SCHEDULING = True
 _trio_run._r = _SHUFFLER
 
 
+class _StepCap(trio.abc.Instrument):
+    """Bounds a world: a service spinning on zero-length sleeps would otherwise never let the
+    virtual clock move (step caps bound runs; they are never a verdict)."""
+
+    def __init__(self, world, cap):
+        self.world = world
+        self.cap = cap
+        self.n = 0
+
+    def before_task_step(self, task):
+        self.n += 1
+        if self.n == self.cap:
+            self.world.step_capped = True
+            if self.world.root_scope is not None:
+                self.world.root_scope.cancel()
+
+
 class World:
     def __init__(self, scenario, tape_values):
         self.scenario = scenario
@@ -63,6 +81,8 @@ class World:
         self.faults = {}
         self.probes = {}
         self._now = None
+        self.step_capped = False
+        self.root_scope = None
         # identity hashes are address dependent: objects that end up in sets get a seeded hash instead
         self.hash_rng = random.Random(scenario.get("seed", 0) ^ 0xA5A5)
 
@@ -88,6 +108,17 @@ class World:
         self.events.append(ev)
         return ev
 
+    def token(self, obj):
+        """Small deterministic integer standing for an object's identity."""
+        if obj is None:
+            return None
+        toks = self.__dict__.setdefault("_tokens", [])
+        for i, o in enumerate(toks):
+            if o is obj:
+                return i
+        toks.append(obj)
+        return len(toks) - 1
+
     def violate(self, key, msg):
         if not any(v["key"] == key for v in self.violations):
             self.violations.append({"key": key, "msg": msg})
@@ -111,14 +142,17 @@ class World:
 
             async def _root():
                 async with trio.open_nursery() as nursery:
+                    self.root_scope = nursery.cancel_scope
                     await main(self, nursery)
                     nursery.cancel_scope.cancel()
 
-            trio.run(_root, clock=clock)
+            trio.run(_root, clock=clock, instruments=[_StepCap(self, 200000)])
         finally:
             _SHUFFLER.tape = None
             if gc_was:
                 gc.enable()
+        if self.step_capped:
+            raise ScenarioInvalid("step cap reached (a service spins without letting time pass)")
         self.probes["trio_batches_shuffled"] = _SHUFFLER.batches
         self.probes["nonidentity_swaps"] = _SHUFFLER.choices
 
@@ -192,6 +226,7 @@ class CaptureHandler(logging.Handler):
         args = record.args if isinstance(record.args, dict) else {}
         self._w.log(
             "log-record",
+            target_tok=self._w.token(args.get("target")),
             logger=record.name,
             level=record.levelno,
             msg=record.msg,
